@@ -123,7 +123,7 @@ def run_prot(prop, tier, seed, fail=False):
                             cases.append(Case("prot %s %d %s" % (kind, n, " ".join(toks)), cls="%s/relock-%s" % (kind, mode)))
                         toks = ["failfrom:2", "new", "fill:a5", "lock", "ro", "unlock", "lock", "clone", "drop", "drop@1"]
                         cases.append(Case("prot %s %d %s" % (kind, n, " ".join(toks)), cls="%s/relock-ro2" % kind))
-    if fail or prop != "C14":
+    if True:
         # Result-returning constructors under refusal / plain
         for n in protfam.LENS:
             for ctor in ("fsl:%d" % n, "fsro:%d" % n, "newlocked", "genlocked", "newrolocked", "genrolocked", "serde:json:%d" % n, "serde:bincode:%d" % n, "stacklock"):
@@ -176,6 +176,76 @@ def run_prot(prop, tier, seed, fail=False):
             res.violations.append({"kind": "predicate", "line": c.line, "answers": answers, "why": why})
         elif m != "n/a" and not compare_wild(i, m):
             res.corr_breaks.append({"line": c.line, "answers": answers})
+    # C15 with ONE mprotect request refused by the kernel while a block is being set up (out of mappings: the allocator prints a line and
+    # goes on without that guard page): every block released afterwards — this one and all others of the process — is still wiped.
+    # The refusal is injected by the LD_PRELOAD shim (interpose/mlock_fail.c, `mpfail:K` = the K-th request from here on, once).
+    # Only the free()-scan and the survival of the process are judged: rights and guard pages are not what the model describes here.
+    if prop == "C15":
+        src = os.path.join(VERIF, "interpose", "mlock_fail.c")
+        if not os.path.exists(shim) or os.path.getmtime(shim) < os.path.getmtime(src):
+            rc, out = sh(["clang", "-shared", "-fPIC", "-O1", "-o", shim, src, "-ldl"])
+            if rc != 0:
+                raise BuildError("cannot build the mlock shim: " + out)
+        env2 = dict(env); env2["LD_PRELOAD"] = shim + " " + env["LD_PRELOAD"]
+        mp = []
+        for n in (32, 1000, 4096, 8193):
+            for k in (1, 2, 3):
+                for toks in (["new", "fill:a5", "mpfail:%d" % k, "clone", "fill:5b@1", "resize:%d@1" % (2 * n + 1), "fill:5c@1", "drop@1", "resize:%d" % (3 * n + 7), "fill:a6", "resize:3", "drop"],
+                             ["mpfail:%d" % k, "new", "fill:a5", "resize:%d" % (2 * n + 1), "fill:a6", "drop", "new", "fill:77@1", "lock@1", "resize:%d@1" % (4 * n), "drop@1"],
+                             ["new", "fill:a5", "lock", "mpfail:%d" % k, "resize:%d" % (2 * n + 4096), "fill:a7", "unlock", "clone", "drop", "drop@1"]):
+                    mp.append(Case("prot bytes %d %s" % (n, " ".join(toks)), cls="bytes/mprotect-refused-once"))
+        mlines = assign_ids(mp)
+        mimpl = run_engine(runner, mlines, env=env2)
+        nb = 0
+        for c in mp:
+            i = mimpl.get(c.id, ["missing"])[0]
+            res.evaluations += 1
+            res.count(c.cls)
+            res.distinct.add(hashlib.sha1(i.encode()).hexdigest())
+            if i in ("missing", "panic") or i.startswith("abort"):
+                res.violations.append({"kind": "impl-" + i.split("(")[0], "line": c.line, "answers": {"impl": i[:600]}, "why": "the process died after one refused mprotect request"})
+                continue
+            if "mpfail" in i and "noshim" in i:
+                res.violations.append({"kind": "predicate", "line": c.line, "answers": {"impl": i[:600]}, "why": "the mprotect-refusing shim is not active"})
+                continue
+            frs = re.findall(r" fr=([^;\s]+)", i)
+            if not frs:
+                res.violations.append({"kind": "predicate", "line": c.line, "answers": {"impl": i[:600]}, "why": "the free()-scanning shim is not active"})
+                continue
+            for fr in frs:
+                if fr == "-":
+                    continue
+                for ev in fr.split("+"):
+                    sz, nz, ur = ev.split(":")
+                    nb += 1
+                    if int(nz) != 0:
+                        res.violations.append({"kind": "predicate", "line": c.line, "answers": {"impl": i[:1500]},
+                                               "why": "after one refused mprotect request a block of %s bytes reached free() with %s non-zero bytes still in it" % (sz, nz)})
+                        break
+        res.extra["free_scan_blocks_after_refused_mprotect"] = nb
+    # C15 once more on an OPTIMISED nightly build without the hooks feature (whose release observer reads the region between the wipe
+    # and free(), which would keep alive a wipe the optimiser may otherwise delete as a dead store): only the free()-scan is judged
+    if prop == "C15" and RELEASE_PASS:
+        rimpl = run_engine(build_runner("nightly-release"), lines, env=env)
+        nblocks = 0
+        for c in cases:
+            i = rimpl.get(c.id, ["missing"])[0]
+            res.evaluations += 1
+            res.count("release-profile/" + c.cls)
+            if i in ("missing", "panic") or i.startswith("abort"):
+                res.violations.append({"kind": "impl-" + i.split("(")[0], "line": c.line, "answers": {"impl(optimised build)": i[:300]}, "why": "the optimised build died on this history"})
+                continue
+            for fr in re.findall(r" fr=([^;\s]+)", i):
+                if fr == "-":
+                    continue
+                for ev in fr.split("+"):
+                    sz, nz, ur = ev.split(":")
+                    nblocks += 1
+                    if int(nz) != 0:
+                        res.violations.append({"kind": "predicate", "line": c.line, "answers": {"impl(optimised build)": i[:600]},
+                                               "why": "optimised build (no hooks): a block of %s bytes reached free() with %s non-zero bytes still in it" % (sz, nz)})
+                        break
+        res.extra["free_scan_blocks_optimised_build"] = nblocks
     # the crate-level constructors that place keys in locked memory (box / signing key pairs, precomputed keys; plain, generated,
     # read-only), with the k-th and all later lock requests refused: Ok or Err, never a panic, nothing left locked, and an Ok
     # result is a correct key / key pair
